@@ -41,11 +41,9 @@ def build_tl_harness(ctx):
     od = C.BUILD + "/overlay"
     os.makedirs(od, exist_ok=True)
     gpath = od + "/tl_scanned.go"
-    with open(gpath, "w") as f:
-        f.write("\n".join(gen) + "\n")
+    C.write_atomic(gpath, "\n".join(gen) + "\n")
     ov = od + "/tl_overlay.json"
-    with open(ov, "w") as f:
-        json.dump({"Replace": {C.V + "/harness/root/cmd/tl/scanned.go": gpath}}, f)
+    C.write_atomic(ov, json.dumps({"Replace": {C.V + "/harness/root/cmd/tl/scanned.go": gpath}}))
     return C.build_harness("root", pkg="./cmd/tl", extra=["-overlay", ov]), len(items)
 
 
